@@ -205,6 +205,47 @@ def precision_in_runs(verdict, tier, seed):
     return {"runs_validated_for_precision": sum(len(g["runs"]) for g in groups), "tlc_states": s, "tlc_transitions": t}
 
 
+def flow_preconditioning_precision(verdict, tier):
+    """preconditioning="flow": the particles go through a second (real, zuko) flow at every mutation;
+    the requested precision - in every accepted spelling - must be the precision of the values."""
+    from aspire import Aspire
+    import minipcn as minipcn_stub
+    minipcn_stub.reset()
+    n = 0
+    for ns in ("numpy", "torch"):
+        for width in (64, 32):
+            for spelling in ("name", "np_dtype", "native"):
+                n += 1
+                xp = smcdrv.get_xp(ns)
+                dt = _spell(spelling, ns, width)
+                scen = {"builder": "flow_precond_precision", "params": {"ns": ns, "width": width, "spelling": spelling}}
+
+                def ll(s):
+                    return s.xp.asarray(-0.5 * ((smcdrv.to_np(s.x) - 0.3) ** 2).sum(-1) / 0.49, dtype=s.dtype)
+
+                def lp(s):
+                    return s.xp.asarray(-0.1 * (smcdrv.to_np(s.x) ** 2).sum(-1), dtype=s.dtype)
+                try:
+                    a = Aspire(log_likelihood=ll, log_prior=lp, dims=2, parameters=["a", "b"],
+                               flow=FakeFlow(ns, width), flow_backend="zuko", xp=xp, dtype=dt,
+                               hidden_features=[4])
+                    out, hist = a.sample_posterior(n_samples=12, sampler="smc", adaptive=False, n_steps=2,
+                                                   preconditioning="flow", return_history=True,
+                                                   preconditioning_kwargs={"fit_kwargs": {"n_epochs": 2, "batch_size": 12}},
+                                                   sampler_kwargs={"n_steps": 2}, rng=np.random.default_rng(5))
+                except Exception as ex:
+                    verdict.violation(f"PrecisionKept|flow-preconditioning|{ns}|{spelling}|{type(ex).__name__}",
+                                      f"SMC with preconditioning='flow' ({ns}, float{width} spelled as {spelling}) raised {type(ex).__name__}: {str(ex)[:150]}", scen)
+                    continue
+                pops = list(getattr(hist, "sample_history", [])) + [out]
+                bad = [i for i, p_ in enumerate(pops) if smcdrv.effective_width(p_.x) != width or smcdrv.ns_of(p_.x) != ns]
+                if bad:
+                    verdict.violation(f"PrecisionKept|flow-preconditioning|{ns}|float{width}|{spelling}",
+                                      f"SMC with preconditioning='flow' ({ns}, float{width} requested as {spelling} {dt!r}): populations {bad} of {len(pops)} hold "
+                                      f"values of width {[smcdrv.effective_width(pops[i].x) for i in bad]} (container width {[smcdrv.width_of(pops[i].x) for i in bad]})", scen)
+    return {"flow_preconditioning_precision_runs": n}
+
+
 def run(verdict, tier, seed):
     out = {}
     # worker pools are forked: everything that forks runs before torch / jax are initialised
@@ -213,6 +254,7 @@ def run(verdict, tier, seed):
     a = dtype_cases(verdict)
     b = output_namespace(verdict, tier)
     c = proposal_consumable(verdict, tier)
+    c.update(flow_preconditioning_precision(verdict, tier))
     out.update({k: v for k, v in a.items() if not k.startswith("tlc_")})
     out.update(b); out.update(c)
     out.update({k: v for k, v in d.items() if not k.startswith("tlc_")})
